@@ -12,7 +12,7 @@
 (*   IOEnv.VERIF_MOD, IOEnv.VERIF_REM  depth-2 sampling: keep every        *)
 (*                      MOD-th type starting at REM (seeded by harness)    *)
 (***************************************************************************)
-EXTENDS Wire, Ndjson, TLC, Json, IOUtils
+EXTENDS Plan, Ndjson
 
 S2N(s) == CHOOSE n \in 0..100000 : ToString(n) = s
 Depth == S2N(IOEnv.VERIF_DEPTH)
@@ -96,7 +96,7 @@ Record(c) ==
     enc |-> SetToSeq({ Enc(c.t, w) : w \in alts }),
     jsonable |-> Jsonable(c.t, c.v),
     json |-> IF Jsonable(c.t, c.v) THEN SetToSeq({ Json(c.t, w) : w \in alts }) ELSE <<>>,
-    kinds |-> Kinds(c.t) ]
+    kinds |-> Kinds(c.t), plan |-> Plan(c.t) ]
 
 AllCases == UNION { CasesOf(t) : t \in Universe }
 
@@ -123,6 +123,7 @@ UntaggedIsDecodable ==
       Jsonable(t.cases[i].t, v) => JKind(Json(t.cases[i].t, v)) \in Kinds(t.cases[i].t)
 
 ASSUME PrintT(<<"universe", Cardinality(Universe), "cases", Cardinality(AllCases)>>)
+ASSUME PlanMatchesEncOn(Universe)
 ASSUME UniquelyDecodable
 ASSUME UntaggedIsDecodable
 ASSUME ndJsonSerialize(IOEnv.VERIF_OUT, SetToSeq({ Record(c) : c \in AllCases }))
